@@ -1,5 +1,6 @@
 import CKT.Props.C01Exact
 import CKT.Props.C01Full
+import CKT.Props.C01C06
 import CKT.Props.C02
 /-!
 # C01 for the supported gates: the round trip holds with the bases of `qpd/decompositions.py`
